@@ -6,9 +6,7 @@ W=$(mktemp -d /tmp/trypatch.XXXXXX)
 rsync -a --exclude .git /repo/ "$W/"
 cd "$W" && git init -q . >/dev/null 2>&1 && git add -A >/dev/null 2>&1
 if ! git apply --whitespace=nowarn "$P" 2>/tmp/trypatch.err; then
-  if ! patch -p1 -s -F3 < "$P" >/tmp/trypatch.err 2>&1; then
-    echo "PATCH-DOES-NOT-APPLY: $(head -3 /tmp/trypatch.err | tr '\n' ' ')"; rm -rf "$W"; exit 3
-  fi
+  echo "PATCH-DOES-NOT-APPLY: $(head -3 /tmp/trypatch.err | tr '\n' ' ')"; rm -rf "$W"; exit 3
 fi
 if [ -n "$PROPS" ]; then
   /verif/bin/verifchk all --repo "$W" --props "$PROPS" 2>&1 | grep -E '^(VIOLATION|  rule=|  witness|BROKEN|UNDECIDED|VACUOUS)' 
